@@ -546,6 +546,17 @@ def idle_other_bus(order=('A', 'B')):
     return cfg
 
 
+def idle_other_bus_small_history(order=('A', 'B'), n=1):
+    """as idle_other_bus, but B keeps only n events: the child processed inline on B awaits a grandchild there (accepting it evicts
+    the started child from B's history) and then goes on working (d2) while an external task calls wait_until_idle(B)."""
+    handlers = [['A', 'P', 'hP', [['sleep', 'd1'], ['disp', 'B', 'C', 'C1'], ['await', 'C1'], ['ret', 'p']]],
+                ['B', 'C', 'hC', [['dispawait', 'B', 'G', 'G1'], ['sleep', 'd2'], ['ret', 'c']]], ['B', 'G', 'hG', [['ret', 'g']]],
+                ['B', 'X', 'hX', [['ret', 'x']]]]
+    main = [['root', 'B', 'X', 'X0'], ['idle', 'B'], ['root', 'A', 'P', 'P1'], ['await', 'P1'], ['idle', 'A'], ['idle', 'B'], ['obs_all', 'end']]
+    return dict(buses=['A', 'B'], order=list(order), max_history={'B': n}, reals={'d1': D, 'd2': D, 't_w': ['0', '1/2']}, handlers=handlers,
+                main=main, actors={'w': [['sleep', 't_w'], ['idle', 'B']]}, horizon=6)
+
+
 def flood_idle():
     """a burst larger than the queue onto a bus with a small history limit (rejections swallowed), then wait_until_idle()."""
     handlers = [['A', 'C', 'hC', [['ret', 'c']]]]
@@ -781,3 +792,15 @@ def fw_idle_then_stop():
     handlers = [['A', 'P', 'hA', [['sleep', 'd1'], ['ret', 'a']]], ['B', 'P', 'hB', [['sleep', 'd2'], ['ret', 'b']]], ['B', 'X', 'hXB', [['ret', 'x']]]]
     main = [['root', 'B', 'X', 'X0'], ['idle', 'B'], ['root', 'A', 'P', 'P1'], ['await', 'P1'], ['stop', 'B', {'timeout': 2.0}], ['idle', 'A'], ['obs_all', 'end']]
     return dict(buses=['A', 'B'], order=['A', 'B'], reals={'d1': ['0', '1/5'], 'd2': ['0', '1/5']}, handlers=handlers, forwards=[['A', 'B']], main=main, horizon=7)
+
+
+
+def fw_target_cleared_then_timeout():
+    """A forwards to B *before* its own slow handler runs (the forward is registered first), B is stopped with clear=True while that
+    handler is still running (B disappears from the registry: event.event_bus can no longer be resolved), then the handler exceeds
+    the event's time-out; A must still complete the event and become idle."""
+    handlers = [['B', 'P', 'hB', [['ret', 'b']]], ['A', 'P', 'hA', [['sleep', 'd1'], ['ret', 'a']]], ['A', 'L', 'hL', [['ret', 'l']]]]
+    # (L events are not forwarded: dispatching to a stopped bus is another matter, F19)
+    main = [['root', 'A', 'P', 'P1'], ['sleep', 't1'], ['stop', 'B', {'clear': True}], ['root', 'A', 'L', 'L1'], ['idle', 'A'], ['obs_all', 'end']]
+    return dict(buses=['A', 'B'], order=['A', 'B'], reals={'d1': ['0', '3/5'], 't1': ['0', '1/4']}, handlers=handlers,
+                typed_forwards_first=[['A', 'B', 'P']], main=main, timeouts={'P1': '1/4'}, T='1/4', horizon=7)
